@@ -3,6 +3,7 @@
 //! lines from stdin and prints one `O <observation>` line per case, in order.
 
 mod exec_reader;
+mod exec_write;
 mod gen;
 mod util;
 
@@ -11,6 +12,8 @@ use std::io::{self, BufRead, Write};
 fn exec_line(line: &str) -> String {
     if line.starts_with("R ") {
         exec_reader::run_case(line)
+    } else if line.starts_with("W ") {
+        exec_write::run_case(line)
     } else {
         "bad-case".to_string()
     }
